@@ -126,6 +126,20 @@ def run_io(sess, fs: SimFS, plan: dict | None, fn, dry=None):
     return res, ctx
 
 
+def _frames_of(kind, obj) -> set:
+    """identities of the DataFrames behind an object (used only for a yes/no sharing test, never traced)"""
+    try:
+        if kind == "list":
+            return {id(obj.df)}
+        if kind == "map":
+            return {id(tl.df) for tl in obj.objs.values()}
+        if kind == "mapset":
+            return {id(tl.df) for m in obj.maps for tl in m.objs.values()}
+    except Exception:
+        pass
+    return set()
+
+
 def _is_oserror(exc) -> bool:
     e = exc
     seen = 0
@@ -222,6 +236,13 @@ class IoRead(OpSpec):
         a = g.alpha(res.value)
         for m in g.cmp_read(den, a, layout)[:3]:
             out.fail(prop, inv, m)
+        # every read yields a chart of its own: it may not be (or share frames with) an object the caller already holds
+        mine = _frames_of(g.kind, res.value)
+        for hn, hd in sess.world.h.items():
+            if hd.kind in ("map", "mapset", "list") and (hd.obj is res.value or (mine & _frames_of(hd.kind, hd.obj))):
+                out.fail(prop, "I3.io.read.fresh", f"read_file returned an object that shares state with {hn} ({type(hd.obj).__name__}), "
+                                                   f"which the caller already holds: a later edit of either changes the other")
+                break
         if fired:
             out.probes.append("read_returned_despite_fault")
         meta = dict(keys=den.get("keys", 4), read_from=path, read_layout=layout, lineage_layout=layout)
